@@ -3,9 +3,9 @@
 From TT Require Import Lib.Base Model.Router Spec.C18 Corr.C18 Proof.C18.
 
 (* The model meets the whole statement for every router configuration and every history of
-   add_rule / startTestRun / stopTestRun / status calls (any order, any number of rules, duplicate
-   keys and shared sinks included); wf only asks that the sinks exist and that no route code is
-   the empty string. *)
+   add_rule (accepted or rejected) / startTestRun / stopTestRun / status calls (any order, any
+   number of rules, duplicate keys and shared sinks included); wf only asks that the sinks exist
+   and that no route code is the empty string. *)
 Theorem C18_holds : forall i : input, wf i -> spec_okb i (model i) = true.
 Proof. exact model_meets_spec. Qed.
 Print Assumptions C18_holds.
@@ -90,6 +90,7 @@ Theorem C18_start_stop : forall i, wf i -> wf_distinct i -> forall k o so s,
     | Stop => if memb s (registered i past) then [StopRun] else []
     | AddPrefix s' _ _ ss | AddId s' _ ss => if Nat.eqb s' s && ss && in_run past then [StartRun] else []
     | Status _ _ => []
+    | AddRej _ _ _ => []
     end.
 Proof. exact start_stop. Qed.
 Print Assumptions C18_start_stop.
@@ -108,6 +109,20 @@ Theorem C18_start_stop_log : forall i, wf i -> wf_distinct i -> forall s, s < n_
 Proof. exact start_stop_log. Qed.
 Print Assumptions C18_start_stop_log.
 
+(* a rejected add_rule (ValueError / TypeError, whatever its sink, its do_start_stop_run and the point
+   of the history) leaves no trace: the call raises, no sink receives anything, and every other call
+   of the history - before and after it - is observed exactly as in the history without that call.
+   With C18_start_stop_log (whose `registered` skips rejected calls): the sink of a rejected call is
+   not started, never receives start/stop because of it, and a corrected retry registers it once. *)
+Theorem C18_rejected : forall n f fs l1 l2 s w ss,
+  let os := o_steps (model {| n_sinks := n; fb := f; fb_ss := fs; ops := l1 ++ l2 |}) in
+  o_steps (model {| n_sinks := n; fb := f; fb_ss := fs; ops := l1 ++ AddRej s w ss :: l2 |})
+  = firstn (length l1) os ++ {| s_raised := true; s_new := repeat [] n |} :: skipn (length l1) os
+  /\ o_round (model {| n_sinks := n; fb := f; fb_ss := fs; ops := l1 ++ AddRej s w ss :: l2 |})
+     = o_round (model {| n_sinks := n; fb := f; fb_ss := fs; ops := l1 ++ l2 |}).
+Proof. exact rejected_no_trace. Qed.
+Print Assumptions C18_rejected.
+
 (* a registration lasts: registered at the call after the add_rule, and from then on *)
 Theorem C18_registered : forall i j k s o,
   (nth_error (ops i) k = Some o -> In s (registration o) -> memb s (registered i (firstn (S k) (ops i))) = true)
@@ -120,17 +135,19 @@ Theorem C18_obs_eqb : forall a b, obs_eqb a b = true <-> a = b.
 Proof. exact obs_eqb_spec. Qed.
 Print Assumptions C18_obs_eqb.
 
-(* non-vacuity: a fallback registered for start/stop, a consuming prefix rule added during a run
-   with do_start_stop_run, a test-id rule without; an event pushed through StreamToQueue(2) and
+(* non-vacuity: a fallback registered for start/stop, an add_rule rejected during a run with
+   do_start_stop_run and retried with the same sink (a consuming prefix rule, started once), a
+   test-id rule without; an event pushed through StreamToQueue(2) and
    StreamToQueue(0) pops back; the string-level hypotheses are satisfiable *)
 Example C18_example :
   let e := Ev (Some 1) (Some 4) None true None None false None (Some [3; 4]) None in
   let i := {| n_sinks := 3; fb := Some 0; fb_ss := true;
-              ops := [Start; AddPrefix 1 0 true true; AddId 2 (Some 1) false;
+              ops := [Start; AddRej 1 4 true; AddPrefix 1 0 true true; AddId 2 (Some 1) false;
                       Status [2; 0] e; Status [] e; Stop] |} in
   wf i /\ wf_distinct i
   /\ o_steps (model i)
      = [ {| s_raised := false; s_new := [[StartRun]; []; []] |};
+         {| s_raised := true; s_new := [[]; []; []] |};
          {| s_raised := false; s_new := [[]; [StartRun]; []] |};
          {| s_raised := false; s_new := [[]; []; []] |};
          {| s_raised := false; s_new := [[]; [St (set_route e (Some [2; 3; 4]))]; []] |};
